@@ -190,6 +190,22 @@ func sortedClasses(m map[string]bool) []string {
 	return out
 }
 
+// closeReason buckets the error the client transport reported to onClose.
+func closeReason(err error) string {
+	if err == nil {
+		return "goaway_or_graceful"
+	}
+	e := err.Error()
+	for _, k := range []string{"keepalive", "frame too large", "PROTOCOL_ERROR", "FLOW_CONTROL_ERROR", "FRAME_SIZE_ERROR", "COMPRESSION_ERROR", "unexpected EOF", "EOF", "closed pipe",
+		"received goaway and there are no active streams", "received goaway with non-zero even-numbered", "exceeds stream id of previous goaway", "no active streams left to process while draining",
+		"not a settings frame", "rig closed"} {
+		if strings.Contains(e, k) {
+			return strings.ReplaceAll(k, " ", "_")
+		}
+	}
+	return "other"
+}
+
 func settingsOf(pairs []int64) []http2.Setting {
 	var ss []http2.Setting
 	for i := 0; i+1 < len(pairs); i += 2 {
@@ -233,7 +249,6 @@ func runTransport(t *testing.T, p Plan) outcome {
 		synctest.Wait()
 		recs := make([]*rpcRec, len(p.RPCs))
 		var wg sync.WaitGroup
-		lastClass := ""
 		for _, st := range p.Script {
 			out.steps++
 			switch st.K {
@@ -263,10 +278,6 @@ func runTransport(t *testing.T, p Plan) outcome {
 				synctest.Wait()
 				continue
 			}
-			if lastClass != "" && (rig.Conn.Closed() || rig.PeerConn.Closed()) {
-				out.class("fatal:" + lastClass)
-				lastClass = ""
-			}
 			b, bad, class := cs.encode(st)
 			inFlight := 0
 			for _, r := range recs {
@@ -283,22 +294,22 @@ func runTransport(t *testing.T, p Plan) outcome {
 				for _, c := range class {
 					out.class(c)
 				}
-				if bad && inFlight > 0 {
+				if bad {
 					out.nontriv = true
-					out.nBadAlive++
+					if inFlight > 0 {
+						out.nBadAlive++
+						out.class("nt:violation_with_rpc_in_flight")
+					}
 				}
 			}
 			rig.Peer.WriteRaw(b)
-			if alive {
-				lastClass = strings.Join(class, ",")
-			}
 			if !st.NW {
 				synctest.Wait()
 			}
 		}
 		synctest.Wait()
-		if lastClass != "" && (rig.Conn.Closed() || rig.PeerConn.Closed()) {
-			out.class("fatal:" + lastClass)
+		for _, gi := range rig.CloseInfos() {
+			out.class("conn_close:" + closeReason(gi.Err))
 		}
 		// Let every deadline pass (virtual time) and check termination.
 		var maxDL time.Time
@@ -390,7 +401,7 @@ const ruleCommon = "script of 10..N steps drawn from a grammar over HTTP/2 frame
 	"HEADERS with malformed content (bad/duplicate/missing grpc-status, content-type, :status incl. 1xx+END_STREAM and non-numeric, duplicate/late/unknown pseudo headers, upper-case names, control bytes, bad base64 in -bin, bad percent-encoding, bad status details, HEADERS mid-stream, END_STREAM without status, random/ill-indexed/truncated hpack blocks, missing END_HEADERS, padding larger than the payload, huge and many headers), orphan CONTINUATION, " +
 	"DATA on unknown/closed/even/zero/huge stream ids, before headers, with END_STREAM, lying or compressed message prefixes, beyond the 65535-byte windows, in one frame > 16384, bad padding; WINDOW_UPDATE 0 / overflow / wrong length; SETTINGS with bogus ids, invalid values, on a stream, wrong length, ACK with payload; PING floods, wrong length, on a stream; RST_STREAM with arbitrary codes and ids; GOAWAY with even / increasing / zero / arbitrary ids, on a stream, short; unknown frame types, PRIORITY, PUSH_PROMISE, frames declaring more bytes than follow, literal garbage, connection close; " +
 	"8% of the steps additionally get raw byte mutations (bit flip, set, truncate, drop, insert, splice) of their encoding; 30% of the steps are sent without waiting for quiescence. RPCs (1..k, deadlines 1 ms..4 s virtual, 0..3 request messages of 0..150 KB) are started by script steps. " +
-	"non-trivial = at least one violating step was written while the connection was alive, a stream had been opened and at least one RPC was still in flight"
+	"non-trivial = at least one violating step was written while the connection was alive and after a stream had been opened (class nt:violation_with_rpc_in_flight counts the cases where an RPC was still in flight at that moment)"
 
 func TestVerifC11Transport(t *testing.T) {
 	vk.Check(t, vk.Unit[Plan]{ID: "C11", Name: "transport",
